@@ -63,7 +63,24 @@ def make_judges(ctx):
         if ev.op != '__init__' or ev.kind != 'method':
             return
         d = init_arguments(ev)
-        if d.get('like') is not None or d.get('dtype') is not None or getattr(Fxp, 'template', None) is not None:
+        if d.get('dtype') is not None or getattr(Fxp, 'template', None) is not None:
+            return
+        if d.get('like') is not None:
+            # next to like=: "if n_int is given with one other size the third follows arithmetically" - with the signedness GIVEN in the call (the template only
+            # hands on its configuration then); judged on the format alone
+            sg_, nw_, nfr_, ni_ = d.get('signed'), d.get('n_word'), d.get('n_frac'), d.get('n_int')
+            if not isinstance(d.get('like'), Fxp) or not isinstance(sg_, bool) or not isinstance(ni_, int) or (nw_ is None) == (nfr_ is None) \
+                    or set(d) - {'val', 'signed', 'n_word', 'n_frac', 'n_int', 'like'} or ev.exc is not None or not ev.post or ev.post[0] is None:
+                return
+            s_ = 1 if sg_ else 0
+            want_ = (sg_, nw_ if nw_ is not None else ni_ + nfr_ + s_, nfr_ if nfr_ is not None else nw_ - ni_ - s_)
+            if not (1 <= want_[1] <= 64):
+                return
+            if ev.post[0].fmt() != want_ or ev.post[0].n_int != ni_:
+                ctx.violation('format', 'Fxp(v, like=t, signed=%r, n_int=%d, %s) gave %s with n_int=%r, the third size follows arithmetically: %s' % (
+                    sg_, ni_, 'n_word=%d' % nw_ if nw_ is not None else 'n_frac=%d' % nfr_, R.dtype_fxp(*ev.post[0].fmt()), ev.post[0].n_int, R.dtype_fxp(*want_)), ev)
+            ctx.judged(('like-arithmetic', sg_, nw_ is not None), True, None)
+            ctx.floor_hit(('like-with-n_int-and-signedness',))
             return
         extra = set(d) - {'val', 'signed', 'n_word', 'n_frac', 'n_int', 'like', 'dtype'}
         MAXW = 64
@@ -84,8 +101,17 @@ def make_judges(ctx):
             ctx.skip('infer:non-default configuration or raw/scaled construction')
             return
         val = d.get('val')
-        if val is None or isinstance(val, Fxp):
+        if val is None:
             return
+        fxp_vals = None
+        if isinstance(val, Fxp):
+            # values supplied inside an (unscaled, real) fixed-point object: inferred like any other values
+            sp_ = next((p_ for o_, p_ in zip(ev.operands, ev.pre) if o_ is val), None)
+            if sp_ is None or sp_.is_complex or sp_.scaled or not (1 <= sp_.n_word <= 52) or any(not isinstance(k_, int) for k_ in sp_.codes) or extra or is_raw:
+                return
+            if any(sp_.status.get(f_) for f_ in ('inaccuracy', 'overflow', 'underflow')):
+                return      # (a fixed-point input hands its own flags on: C04)
+            fxp_vals = ([F(k_) * R.lsb(sp_.n_frac) for k_ in sp_.codes], tuple(sp_.shape), False)
         n_word, n_frac, n_int = d.get('n_word'), d.get('n_frac'), d.get('n_int')
         sg_arg = d.get('signed')
         signed = True if sg_arg is None else bool(sg_arg)
@@ -102,7 +128,9 @@ def make_judges(ctx):
             ctx.skip('infer:n_int alone (not covered by the statement)')
             return
         try:
-            vals, shape, is_c = exact_values(val)
+            vals, shape, is_c = fxp_vals if fxp_vals is not None else exact_values(val)
+            if fxp_vals is not None:
+                ctx.floor_hit(('fixed-point-input',))
         except Unsupported as e:
             ctx.skip('infer:' + str(e))
             return
@@ -133,6 +161,9 @@ def make_judges(ctx):
         rank = 'scalar' if shape == () else 'array'
         if post.n_word > MAXW:
             ctx.violation('cap', 'inferred word %d exceeds the configured maximum %d' % (post.n_word, MAXW), ev)
+            return
+        if not in_dom and fxp_vals is not None:
+            ctx.skip('infer:fixed-point input outside the dyadic domain')
             return
         if not in_dom:
             # capped / non-dyadic case: quantization error below one LSB and flagged inexact iff inexact
@@ -237,7 +268,7 @@ def floors(tier):
     gs = [(), ('n_word',), ('n_frac',), ('n_frac', 'n_int'), ('n_word', 'n_int')]
     return [('given', g, sa) for g in gs for sa in (None, True, False)] + [('capped', True), ('capped', False), ('capped_configured_maximum', True),
                                                                          ('mixed_int_float_container', 'list'), ('mixed_int_float_container', 'tuple'), ('object-array-numpy-scalars',), ('raw-with-fraction-length',),
-                                                                         ('complex-input', False), ('complex-input', True)]
+                                                                         ('complex-input', False), ('complex-input', True), ('like-with-n_int-and-signedness',), ('fixed-point-input',)]
 
 
 # ------------------------------------------------------------------------------------------ workload
@@ -369,6 +400,20 @@ def run_case(case, ctx):
             _try(lambda: Fxp([float(rng.randint(600, 4000)), 3.0], n_frac=4, raw=True, n_word_max=8, **kw))
             _try(lambda: Fxp(rng.randint(600, 4000), n_frac=rng.randint(3, 6), raw=True, n_word_max=rng.choice([8, 10, 12]), **kw))
             ctx.floor_hit(('raw-with-fraction-length',))
+            # values supplied inside a fixed-point object whose format is wider / finer than they need; sizes given next to like= with another signedness
+            srcf = _try(lambda: Fxp(val, True, 52, 22))
+            if srcf is not None and not nonneg or srcf is not None:
+                _try(lambda: Fxp(srcf, **kw))
+                _try(lambda: Fxp(srcf, n_word=rng.randint(24, 48), **kw))
+            ib_ = int_bits(vals, not nonneg)
+            tsg = rng.random() < 0.5
+            tmpl_ = Fxp(None, tsg, 16, 8)
+            for sg2 in (True, False):
+                if not sg2 and any(v < 0 for v in vals):
+                    continue
+                ib2 = int_bits(vals, sg2)
+                _try(lambda: Fxp(val, like=tmpl_, signed=sg2, n_word=ib2 + nfe + (1 if sg2 else 0), n_int=ib2))
+                _try(lambda: Fxp(val, like=tmpl_, signed=sg2, n_frac=nfe, n_int=ib2))
             # complex inputs are sized for both components: values, and raw codes whose fraction length the configured maximum shortens
             cre, cim = vals[0], dyadic_value(rng, nonneg)
             _try(lambda: Fxp(complex(float(cre), float(cim)), **kw))
